@@ -87,3 +87,15 @@ Check (C12_spine_nounlock_refuted :
     count_locked (sheap (fst (sess_run_nounlock empty_session h))) <> 0 /\
     snd (sess_step_nounlock (fst (sess_run_nounlock empty_session h)) (ISpine k e))
     <> snd (sess_step_nounlock empty_session (ISpine k (chain (defs_of h) e)))).
+
+Check (C12_session_equiv_thunk_copy_refuted :
+  exists h k e n c,
+    snd (sess_step_satcopy (fst (sess_run_satcopy empty_session h)) (IEval k e)) = OErr EInfRec /\
+    spec_run n (defs_of h) e = Err c).
+
+Check (C12_thunk_copy_order_refuted :
+  exists k n,
+    snd (sess_step_satcopy empty_session (IEval k (copy_single false))) = OErr EInfRec /\
+    snd (sess_step_satcopy empty_session (IEval k (copy_single true))) = OOk (ONum 10) /\
+    spec_run n [] (copy_single false) = Val (VNum 10) /\
+    snd (sess_step empty_session (IEval k (copy_single false))) = OOk (ONum 10)).
